@@ -12,6 +12,9 @@ type Request struct {
 	Label string
 	// Payload is the client payload in neutral form (nil: the method has none).
 	Payload any
+	// Body is the raw request body of a SkipRequestBodyEncodeDecode method (the service reads it
+	// to the end and reports it).
+	Body string
 	// What the stub service answers: a result (with a view for viewed results) or an error.
 	Result any
 	View   string
@@ -120,6 +123,18 @@ func Requests(sp *spec.Spec, svc *spec.Service, m *spec.Method, tag string) []Re
 		add(Request{Label: "accept:json", Payload: spec.Obj{"acc": "application/json"}, Result: res})
 		add(Request{Label: "accept:xml", Payload: spec.Obj{"acc": "application/xml"}, Result: res})
 		add(Request{Label: "accept:xml undeclared-plain", Payload: spec.Obj{"acc": "application/xml"}, Err: "plain"})
+	case "skip-request-body":
+		p := spec.Obj{"id": "id-" + tag, "hh": "hh-" + tag}
+		add(Request{Label: "upload", Payload: p, Body: "streamed body of " + tag + " 0123456789", Result: spec.Obj{"ok": "ok-" + tag}})
+		add(Request{Label: "upload-empty", Payload: spec.Obj{"id": "id2-" + tag}, Body: "", Result: spec.Obj{"ok": "ok2-" + tag}})
+		add(Request{Label: "upload undeclared-plain", Payload: p, Body: "body before failure " + tag, Err: "plain"})
+	case "skip-request-body-noresult":
+		p := spec.Obj{"qv": "qv-" + tag}
+		add(Request{Label: "upload", Payload: p, Body: "second stream " + tag})
+		add(Request{Label: "upload declared-default:e_a", Payload: p, Body: "rejected stream " + tag, Err: "default:e_a"})
+	case "noargs":
+		add(Request{Label: "valid", Result: spec.Obj{"ok": "ok-" + tag}})
+		undeclared(nil)
 	case "path-noresult":
 		good := spec.Obj{"id": "6ba7b810-9dad-11d1-80b4-00c04fd430c8"}
 		add(Request{Label: "valid", Payload: good})
